@@ -12,6 +12,7 @@ def guaranteed (s : State) : Action → Bool
   | .trx i (.exit w) => match s.trxs[i]? with | some t => (t.get w).cancelReq | none => false
   | .tpt k .pumpExit => match s.tpts[k]? with | some t => t.pumpCancel | none => false
   | .tpt _ .monFirst | .tpt _ .monExit => true
+  | .tpt k .nstep => match s.tpts[k]? with | some t => decide (1 ≤ t.nstop) | none => false
   | .connExit c => match s.conns[c]? with | some cn => cn.cancelReq | none => false
   | .waiterReturn => true
   | .closeCall true => true
@@ -28,6 +29,7 @@ structure Final (s : State) : Prop where
   sctp : ∀ (sc : Sctp), s.sctp = some sc → sctpDone sc
   waiters : s.waiters = 0
   auto : s.auto ≠ .queued
+  cleanups : ∀ (k : Nat) (t : Tpt), s.tpts[k]? = some t → t.nstop = 0 ∨ t.nstop = 4
 
 theorem close_enabled {s s' : State} {l : CLabel} (hQ : Quiescent s) (h : s.closeNext = some (l, s')) : False := by
   have := hQ (.close l) rfl
@@ -177,7 +179,7 @@ theorem final_of_quiescent {s : State} (hI : Inv s) (hc : s.closed = true) (hQ :
     | false =>
       exfalso
       exact close_enabled hQ (l := .leaveClose) (by simp [State.closeNext, hcd, hp, hc, hd]; rfl)
-  refine ⟨hdone, hp, hconns, ?_, ?_, ?_, ?_, ?_⟩
+  refine ⟨hdone, hp, hconns, ?_, ?_, ?_, ?_, ?_, ?_⟩
   · intro i t ht
     have := hI.coverT hc i t ht
     rw [hp] at this
@@ -205,5 +207,20 @@ theorem final_of_quiescent {s : State} (hI : Inv s) (hc : s.closed = true) (hQ :
   · intro ha
     have := hQ (.closeCall true) rfl
     simp [State.step, ha, hc] at this
+  · -- a BUNDLE clean-up in progress always has its next step enabled: the transport is unreferenced and was never started
+    intro k t ht
+    obtain ⟨n1, n2, n3, n4, n5, n6⟩ := hI.wfN k t ht
+    rcases Nat.eq_zero_or_pos t.nstop with h0 | h0
+    · exact Or.inl h0
+    · right
+      rcases Nat.lt_or_ge t.nstop 4 with h4 | h4
+      · exfalso
+        have hg : guaranteed s (.tpt k .nstep) = true := by simp [guaranteed, ht]; omega
+        have := hQ (.tpt k .nstep) hg
+        have hr := hI.unref k t ht h0
+        have hu := n5 h0
+        have h123 : t.nstop = 1 ∨ t.nstop = 2 ∨ t.nstop = 3 := by omega
+        rcases h123 with h | h | h <;> simp [State.step, ht, hr, tptStep, hu, h] at this
+      · omega
 
 end Aiortc.Lemmas.Close
